@@ -172,6 +172,7 @@ impl Property for C01 {
             "terms>32",
             "terms>=256",
             "one-sample-lacks-a-variable",
+            "incomplete-sample-with-same-entry-count",
             "sweep=many-variables",
         ]
         .iter()
@@ -396,6 +397,11 @@ impl Property for C01 {
                     let others_have_it = samples.entries.iter().enumerate().any(|(i, e)| i != k && e.state.as_ref().map(|s| s.entries.contains_key(&victim)).unwrap_or(false));
                     if others_have_it {
                         samples.entries[k].state.as_mut().unwrap().entries.remove(&victim);
+                        if t.coin() {
+                            // ... while an unrelated id keeps the number of entries the same
+                            samples.entries[k].state.as_mut().unwrap().entries.insert(777_777_777, 1.0);
+                            ctx.label("incomplete-sample-with-same-entry-count");
+                        }
                         ctx.label("one-sample-lacks-a-variable");
                         ctx.nontrivial();
                         ctx.fp(&victim.to_le_bytes());
